@@ -245,8 +245,9 @@ Definition tag_ok (t : text) (tg : tag) : Prop :=
     - [disable-next-line]: on the comment or after it, and on a line up to the one directly after
       the comment's last line;
     - [disable-line]: on the comment's (last) line;
-    - [disable] in a nested block, or at top level without a code list: inside the owner block;
-    - [disable: codes] at top level: anywhere in the file. *)
+    - [disable] in a nested block, or at top level without a code list: inside the owner block.
+    ([disable: codes] at top level acts on the whole file through the file-level set and is the
+    subject of a separate theorem.) *)
 Definition inside (t : text) (tg : tag) (range : N * N) : Prop :=
   match t_kind tg with
   | TDisableNextLine =>
@@ -260,7 +261,7 @@ Definition inside (t : text) (tg : tag) (range : N * N) : Prop :=
       match t_block tg with
       | None => False
       | Some b => match t_codes tg, t_top tg with
-                  | Some _, true => True
+                  | Some _, true => False   (* file-level set: see [file_level_suppressed] *)
                   | _, _ => forall x, occupies (bytes t) range x -> fst b <= x /\ x < snd b
                   end
       end
@@ -289,5 +290,6 @@ Definition outside (t : text) (tg : tag) (range : N * N) : Prop :=
                   | _, _ => forall x, occupies (bytes t) range x -> x < fst b \/ snd b <= x
                   end
       end
-  | TEnable | TOther => True
+  | TEnable => t_codes tg = None   (* [enable: codes] force-enables the listed codes in the whole file *)
+  | TOther => True
   end.
